@@ -311,7 +311,9 @@ def _truth(vm, m, v):
 def _optres(vm, m, c, args):
     mm = re.match(r'^(Option|Result)::<.*?>::(\w+)(?:::<.*>)?$', c)
     if not mm: return NotImplemented
-    ty, n = mm.groups(); v = args[0]; rv = _d(vm, m, v)
+    ty, n = mm.groups()
+    if n in ('Some', 'Ok', 'Err') and len(args) == 1: return ret(m, {'Some': SOME, 'Ok': OK, 'Err': ERR}[n](args[0]))      # the variant used as a function
+    v = args[0]; rv = _d(vm, m, v)
     if not isinstance(rv, Enum): raise Unmodelled('%s method %s on a symbolic value' % (ty, n))
     good = rv.name in ('Some', 'Ok'); call = vm.call_closure
     def each(outs, f):
@@ -822,6 +824,13 @@ def _misc(vm, m, c, args):
                 # max returns the second argument when equal, min the first
                 outs.append((m1, 'ret', (args[1] if r.idx <= 0 else args[0]) if meth == 'max' else (args[0] if r.idx <= 0 else args[1])))
             return outs
+    # a tuple variant used as a function value (`.map(StepSizeAdaptMethod::Fixed)`, `.map(Some)`, `.map_err(MyError::Io)`)
+    mm = re.match(r'^(?:\w+::)*([A-Z]\w*)::([A-Z]\w*)$', c)
+    if mm and mm.group(1) in vm.enums and mm.group(2) in vm.enums[mm.group(1)] and not vm.mir.enum_discr.get(mm.group(1)):
+        return ret(m, Enum(vm._variant_idx(mm.group(1), mm.group(2)), mm.group(2), tuple(args), mm.group(1)))
+    if c in ('Some', 'Option::Some') and len(args) == 1: return ret(m, SOME(args[0]))
+    if c in ('Ok', 'Result::Ok') and len(args) == 1: return ret(m, OK(args[0]))
+    if c in ('Err', 'Result::Err') and len(args) == 1: return ret(m, ERR(args[0]))
     # comparison traits on references compare the referents: <&T as PartialEq<&U>>::eq(&&T, &&U) = <T as PartialEq<U>>::eq(&T, &U)
     mm = re.match(r"^<&(?:'\w+ )?(?:mut )?(.+?) as (PartialEq|PartialOrd|Ord)(?:<&(?:'\w+ )?(?:mut )?(.+)>)?>::(\w+)$", c)
     if mm and all(isinstance(a, Ref) for a in args[:2]):
